@@ -64,6 +64,10 @@ def run_case(c, work):
            "inner": M.inner, "make": M.make}
     key, byname, caller, off = PLACES[c["place"]]
     fn = FN[key]
+    if c.get("inplace"):
+        # the function was tooled in place beforehand (tooled.inplace): it is still the function its reference names
+        from ptera.overlay import tooled
+        tooled.inplace(fn)
     refs, ref_err = {}, ""
     for k, f in FN.items():
         try:
@@ -118,7 +122,7 @@ def run_case(c, work):
     # probing must not leave anything behind in the function's module (ptera's own __ptera* helpers excepted)
     stray = sorted(str(k) for k in vars(M) if k not in base and not str(k).startswith(("__ptera", "_ptera__")))
     sys.modules.pop(name, None)
-    return {"id": c["id"], "place": c["place"], "key": key, "ref": ref, "ref_err": ref_err, "off": off, "steps": steps, "stray": stray}
+    return {"id": c["id"], "place": c["place"], "key": key, "inplace": bool(c.get("inplace")), "ref": ref, "ref_err": ref_err, "off": off, "steps": steps, "stray": stray}
 
 
 def main():
